@@ -275,6 +275,9 @@ def rules(ctx):
     from .C14 import derived_fields
     ctx.rule('R02.18', "a field of model objects outside the frozen bookkeeping fields that is written together with the terms / a bookkeeping field is written by every other mutator of that state (no stale memo)", floor=1)
     derived_fields(ctx, 'R02.18')
+    ctx.rule('R02.21', "P != 0: one-sided shortcuts only under min == 0 / max == 0; the general branch adds sign*(1 + slack) with "
+                       "sign = 2*bit - 1 and widens both bounds with every term", floor=6)
+    two_sided_slack(ctx, 'R02.21', P.func('PCBO.add_constraint_ne_zero'))
     ctx.rule('R02.19', "the sat builders the special forms are written with (AND / OR / NOT ...) take their operands as given: "
                        "model versus label only, operand tuple not rebound", floor=14)
     from .C07 import operand_discipline
@@ -1050,6 +1053,107 @@ def bounds_handoff(ctx, rid, fn):
             ctx.inst(rid, fn, n, bool(mates),
                      "slack bit of weight %s widens the upper bound by %s" % (v, v) if mates else
                      "a slack bit of weight %s is added without widening the tracked upper bound" % v)
+
+
+def two_sided_slack(ctx, rid, fn):
+    """The general branch of add_constraint_ne_zero: P != 0 is P + s*(1 + k) == 0 for a sign s in {-1, +1} and a slack
+    k >= 0.  Decided on the shape: the sign is 2*b - 1 of a fresh ancilla bit, every slack term is sign * weight * fresh bit
+    added (+=) to the working copy, each addition widens both tracked bounds by its weight in the same block, and the
+    one-sided shortcuts are taken only under min_val == 0 (-> P > 0) / max_val == 0 (-> P < 0)."""
+    R = ctx.res
+    selfn = R.self_name(fn)
+    pname = fn.params[1]
+    mn, mx, gbst = bounds_names(fn)
+    if mn is None:
+        ctx.inst(rid, fn, 'def %s' % fn.name, False, "bounds are never obtained from _get_bounds")
+        return
+    g = cfg_of(fn.node)
+
+    def fresh_call(e):
+        return isinstance(e, ast.Call) and call_name(e) in ('boolean_var', 'create_var') and e.args and '_next_ancilla' in src(e.args[0])
+    aliases = {n.targets[0].id for n in walk_no_nested(strip_docstring(fn.node.body)) if isinstance(n, ast.Assign) and len(n.targets) == 1
+               and isinstance(n.targets[0], ast.Name) and fresh_call(n.value)}
+
+    def fresh_bit(e):
+        return fresh_call(e) or (isinstance(e, ast.Name) and e.id in aliases)
+    # (1) one-sided shortcuts
+    for c in calls_in(fn.node):
+        f = c.func
+        if not (isinstance(f, ast.Attribute) and is_name(f.value, selfn) and f.attr in ('add_constraint_gt_zero', 'add_constraint_lt_zero')):
+            continue
+        facts = []
+        for t, pol, o in g.edge_dominators(enclosing_stmt(c)):
+            facts += compare_atoms(t, pol)
+        if f.attr.endswith('gt_zero'):
+            ok = (mn, '==', '0') in facts or (mn, '>=', '0') in facts
+            ctx.inst(rid, fn, c, ok, "P != 0 is encoded as P > 0 only where min == 0" if ok else
+                     "P != 0 is encoded as P > 0 on a branch that does not force %s >= 0: assignments with P < 0 satisfy the "
+                     "constraint but are penalised" % mn)
+        else:
+            ok = (mx, '==', '0') in facts or (mx, '<=', '0') in facts
+            ctx.inst(rid, fn, c, ok, "P != 0 is encoded as P < 0 only where max == 0" if ok else
+                     "P != 0 is encoded as P < 0 on a branch that does not force %s <= 0: assignments with P > 0 satisfy the "
+                     "constraint but are penalised" % mx)
+    # (2) the sign
+    signs = []
+    for n in walk_no_nested(strip_docstring(fn.node.body)):
+        if isinstance(n, ast.Assign) and len(n.targets) == 1 and isinstance(n.targets[0], ast.Name) and any(fresh_bit(x) for x in ast.walk(n.value)) \
+                and not fresh_call(n.value):
+            v = n.value
+            ok = False
+            if isinstance(v, ast.BinOp) and isinstance(v.op, ast.Sub) and const_num(v.right) == 1 and isinstance(v.left, ast.BinOp) \
+                    and isinstance(v.left.op, ast.Mult):
+                a, b = v.left.left, v.left.right
+                ok = (const_num(a) == 2 and fresh_bit(b)) or (const_num(b) == 2 and fresh_bit(a))
+            if isinstance(v, ast.BinOp) and isinstance(v.op, ast.Sub) and const_num(v.left) == 1 and isinstance(v.right, ast.BinOp) \
+                    and isinstance(v.right.op, ast.Mult):
+                a, b = v.right.left, v.right.right
+                ok = (const_num(a) == 2 and fresh_bit(b)) or (const_num(b) == 2 and fresh_bit(a))
+            signs.append(n.targets[0].id)
+            ctx.inst(rid, fn, n, ok, "sign = 2*bit - 1 takes the values -1 and +1" if ok else
+                     "`%s` is not 2*bit - 1 of a fresh ancilla bit: the sign does not range over {-1, +1}" % src(n)[:60])
+    if not signs:
+        ctx.inst(rid, fn, 'sign of the two-sided slack', False, "no sign ancilla found in the general branch of %s" % fn.name)
+        return
+    sg = signs[0]
+    # (3) + (4) terms added to the working copy and the bounds widened with them
+    n_terms = 0
+    for n in walk_no_nested(strip_docstring(fn.node.body)):
+        if not (isinstance(n, ast.AugAssign) and is_name(n.target, pname)):
+            continue
+        if sg not in names_in(n.value):
+            continue
+        n_terms += 1
+        # product of sign, an optional weight name / constant, an optional fresh bit
+        factors = []
+
+        def flat(e):
+            if isinstance(e, ast.BinOp) and isinstance(e.op, ast.Mult):
+                flat(e.left)
+                flat(e.right)
+            else:
+                factors.append(e)
+        flat(n.value)
+        w = [x for x in factors if not is_name(x, sg) and not fresh_bit(x)]
+        bits = [x for x in factors if fresh_bit(x)]
+        okt = isinstance(n.op, ast.Add) and sum(1 for x in factors if is_name(x, sg)) == 1 and len(w) <= 1 and len(bits) <= 1 and \
+            all(isinstance(x, (ast.Name, ast.Constant)) for x in w) and (len(bits) == 1 or not w)
+        wt = src(w[0]) if w else '1'
+        ctx.inst(rid, fn, n, okt, "adds sign * %s%s" % (wt, ' * fresh bit' if bits else '') if okt else
+                 "`%s` is not `+= sign * weight * fresh bit`: the slack no longer counts |P| - 1 with the sign of P" % src(n)[:60])
+        blk = parent(n)
+        body = [lst for lst in (getattr(blk, 'body', []), getattr(blk, 'orelse', []), getattr(blk, 'finalbody', [])) if any(q is n for q in lst)]
+        body = body[0] if body else []
+        up = [m for m in body if isinstance(m, ast.AugAssign) and is_name(m.target, mx) and isinstance(m.op, ast.Add) and src(m.value) == wt]
+        dn = [m for m in body if isinstance(m, ast.AugAssign) and is_name(m.target, mn) and isinstance(m.op, ast.Sub) and src(m.value) == wt]
+        okb = bool(up) and bool(dn)
+        ctx.inst(rid, fn, n, okb, "both bounds widened by %s with the term" % wt if okb else
+                 "the term `%s` is added without widening both tracked bounds by %s (%s += %s, %s -= %s) in the same block: the "
+                 "bounds handed to the equality no longer enclose the polynomial / the register is sized from stale bounds"
+                 % (src(n)[:40], wt, mx, wt, mn, wt))
+    if n_terms < 2:
+        ctx.inst(rid, fn, 'terms of the two-sided slack', False,
+                 "the general branch adds %d signed term(s) to the polynomial, expected the unit `+= sign` and the weighted slack bits" % n_terms)
 
 
 def get_bounds_rule(ctx, rid, gb, approx):
